@@ -28,8 +28,23 @@ def mapInsert (m : List (Key × Val)) (k : Key) (v : Val) : List (Key × Val) :=
 
 def mapGet (m : List (Key × Val)) (k : Key) : Option Val := (m.find? (fun p => p.1 == k)).map (·.2)
 
+/-- long values are written `Z<len>.<hex of the leading tag>` in the operation files (the tag followed by
+filler bytes `z`) and rendered `L<len>.<hex of the first 16 bytes>` by both sides -/
+def valOfTok? (v : String) : Option Val :=
+  if v.startsWith "Z" then
+    match (v.drop 1).toString.splitOn "." with
+    | [n, tag] =>
+      match n.toNat?, bytesOfHex? tag with
+      | some n, some t => some (t ++ List.replicate (n - t.length) 0x7a)
+      | _, _ => none
+    | _ => none
+  else bytesOfHex? v
+
+def renderVal (v : Val) : String :=
+  if v.length ≤ 1200 then hexOfBytes v else s!"L{v.length}.{hexOfBytes (v.take 16)}"
+
 def scanStr (m : List (Key × Val)) : String :=
-  if m.isEmpty then "-" else ",".intercalate (m.map (fun p => hexOfBytes p.1 ++ "=" ++ hexOfBytes p.2))
+  if m.isEmpty then "-" else ",".intercalate (m.map (fun p => hexOfBytes p.1 ++ "=" ++ renderVal p.2))
 
 def storeStep (st : StoreState) (ws : List String) : StoreState × String × String :=
   let same (st : StoreState) (s : String) := (st, s, s)
@@ -42,12 +57,14 @@ def storeStep (st : StoreState) (ws : List String) : StoreState × String × Str
         match bytesOfHex? k with
         | some k =>
           if v == "DEL" || v == "SDEL" then some (mapErase m k)
-          else (bytesOfHex? v).map (fun v => mapInsert m k v)
+          else (valOfTok? v).map (fun v => mapInsert m k v)
         | none => none
       | _, _ => none) (some st.cur)
     match apply with
     | some m => same { st with cur := m, prev := st.cur, lastTxn := true } "ok"
     | none => same st "bad-op"
+  -- a transaction too large for any memtable: refused before anything is logged (fix d15184a), no effect
+  | "txnbig" :: _ => same st "err:toolarge"
   -- the process dies while the last commit's record is half written (torn tail of the commit log);
   -- the store is reopened (the tail is cut by repair): that last transaction is gone, everything else stays
   | ["crashtear", _] =>
@@ -98,7 +115,7 @@ def storeStep (st : StoreState) (ws : List String) : StoreState × String × Str
           match bytesOfHex? k with
           | some k =>
             if v == "DEL" || v == "SDEL" then some (mapErase m k)
-            else (bytesOfHex? v).map (fun v => mapInsert m k v)
+            else (valOfTok? v).map (fun v => mapInsert m k v)
           | none => none
         | _, _ => none) (some st.cur)
       match apply with
